@@ -1712,6 +1712,24 @@ Proof.
   - destruct (gc_pass_touches_only cf hf b begin_ end_ false) as (_ & _ & [Hh _]). exact Hh.
 Qed.
 
+(* C17: the last destination never lies above the range, so nothing outside [dst0, end] is touched *)
+Corollary gc_pass_touches_range b m begin_ end_ :
+  Rel hf K b m -> GPre b -> (begin_ <= end_ < b_head b)%nat ->
+  let dst0 := pick_dst cf (before_bucket cf b false) begin_ begin_ in
+  (dst0 <= begin_)%nat /\ (forall c, (dst0 < c < begin_)%nat -> k_disk (chunk_at b c) = []) /\
+  untouched (fun c => (dst0 <= c <= end_)%nat) b (fst (gc_pass cf hf b begin_ end_ false)).
+Proof.
+  intros HR HP Hrange. cbv zeta.
+  destruct (gc_pass_start b m begin_ end_ HR HP Hrange) as (HG0 & HX0 & _ & _). cbv zeta in HG0, HX0.
+  destruct (gc_files_inv cf hf K hf_inj cap_pos b begin_ (end_ - begin_) begin_ _ HG0 HX0) as [HGe _]; [lia|intros c Hc; apply (proj1 HP c Hc)|].
+  cbv zeta in HGe. replace (S (end_ - begin_)) with (S end_ - begin_)%nat in HGe by lia. replace (begin_ + (end_ - begin_))%nat with end_ in HGe by lia.
+  destruct HGe as (_ & _ & _ & _ & G5 & _). cbv zeta in G5.
+  destruct (gc_pass_touches_only cf hf b begin_ end_ false) as (T1 & T2 & T3). cbv zeta in T1, T2, T3.
+  destruct (gc_pass_reclaims b m begin_ end_ HR HP Hrange) as (D & _ & Hgap & _).
+  split; [exact T1|]. split; [exact Hgap|].
+  eapply untouched_weaken; [|exact T3]. cbv beta. intros c Hc. lia.
+Qed.
+
 (* any number of passes, each over its own range *)
 Definition gc_passes (cf : cfg) (hf : bytes -> N) (b : bucket) (ranges : list (nat * nat)) : bucket :=
   fold_left (fun bb r => fst (gc_pass cf hf bb (fst r) (snd r) false)) ranges b.
